@@ -206,7 +206,21 @@ class Lower:
 
     def e_Call(self, n):
         args, kw = self._args(n)
-        return call(self.e(n.func), args, kw)
+        # super().m(...)  ->  resolved base-class function applied to self
+        if isinstance(n.func, ast.Attribute) and isinstance(n.func.value, ast.Call) and isinstance(n.func.value.func, ast.Name) \
+                and n.func.value.func.id == 'super' and not n.func.value.args and self.scope.cls is not None:
+            defining = self.scope.func.cls if self.scope.func is not None and self.scope.func.cls is not None else self.scope.cls
+            target = self.scope.program.lookup_method(self.scope.cls, n.func.attr, after=defining) \
+                if defining in self.scope.program.mro(self.scope.cls) else None
+            if target is not None:
+                first = [self.env.get('self', V('self'))] if n.func.attr != '__new__' else []
+                return self.bind(G(target.qualname), target, first + args, kw, skip=0)
+            return call(attr(call(G('super')), n.func.attr), args, kw)
+        fn = self.e(n.func)
+        return call(fn, args, kw)
+
+    def bind(self, fn, fi, args, kw, skip):
+        return bind_call(self.scope.program, fn, fi, args, kw, skip)
 
     def e_Lambda(self, n):
         return self._lambda(n.args, lambda sub: sub.e(n.body))
@@ -327,6 +341,83 @@ class Lower:
         return self._comp(n, lambda sub: ('tuple', (sub.e(n.key), sub.e(n.value))), lambda t: call(G('dict'), [t]))
 
 
+def bind_call(program, fn, fi, args, kw, skip):
+        """Canonical all-keyword call of a repository function: positional -> parameter names, defaults filled."""
+        a = fi.node.args
+        pos = [x.arg for x in a.posonlyargs + a.args][skip:]
+        if any(x[0] == 'dstar' for x in args):
+            return call(fn, args, kw)
+        out = {}
+        rest = list(args)
+        names = list(pos)
+        while rest and names and rest[0][0] != 'star':
+            out[names.pop(0)] = rest.pop(0)
+        if rest:
+            if a.vararg is None or (names and rest[0][0] == 'star'):
+                if any(x[0] == 'star' for x in rest):
+                    return call(fn, args, kw)          # cannot bind a starred argument to named parameters
+                return call(fn, args, kw)
+            parts = [x[1] if x[0] == 'star' else ('list', (x,)) for x in rest]
+            out['*' + a.vararg.arg] = parts[0] if len(parts) == 1 else ('concat', tuple(parts))
+        elif a.vararg is not None:
+            out['*' + a.vararg.arg] = ('list', ())
+        for k, v in kw:
+            if k in out:
+                return call(fn, args, kw)
+            out[k] = v
+        # defaults
+        dl = Lower(Scope(program, fi.module, fi.cls, fi), set())
+        allpos = a.posonlyargs + a.args
+        for prm, d in zip(allpos[len(allpos) - len(a.defaults):], a.defaults):
+            if prm.arg in pos and prm.arg not in out:
+                out[prm.arg] = dl.e(d)
+        for prm, d in zip(a.kwonlyargs, a.kw_defaults):
+            if d is not None and prm.arg not in out:
+                out[prm.arg] = dl.e(d)
+        return call(fn, (), tuple(sorted(out.items())))
+
+
+
+PROGRAM = None      # set by FuncLower; lets norm() canonicalise calls of repository functions / classes
+
+
+def bind_glob(fn, args, kw):
+    """canonical all-keyword form of a call to a repository class / function (or None)"""
+    prog = PROGRAM
+    if prog is None or fn[0] != 'glob':
+        return None
+    q = fn[1]
+    if q in prog.classes:
+        ci = prog.classes[q]
+        ctor = prog.lookup_method(ci, '__init__') or prog.lookup_method(ci, '__new__')
+        if ctor is None:
+            return None
+        fi, skip = ctor, 1
+    elif q in prog.functions:
+        fi, skip = prog.functions[q], 0
+    else:
+        return None
+    if not args:
+        a = fi.node.args
+        names = {x.arg for x in (a.posonlyargs + a.args)[skip:]} | {x.arg for x in a.kwonlyargs}
+        if a.vararg:
+            names.add('*' + a.vararg.arg)
+        if {k for k, _ in kw} >= {n for n in names if _has_default(fi, n) or n in dict(kw) or n.startswith('*')} and \
+                all(k in names for k, _ in kw) and all((n in dict(kw)) for n in names if _has_default(fi, n) or n.startswith('*')):
+            return None          # already canonical
+    r = bind_call(prog, fn, fi, list(args), list(kw), skip)
+    if r == ('call', fn, tuple(args), tuple(kw)):
+        return None
+    return r
+
+
+def _has_default(fi, name):
+    a = fi.node.args
+    allpos = a.posonlyargs + a.args
+    withdef = {p.arg for p in allpos[len(allpos) - len(a.defaults):]} | {p.arg for p, d in zip(a.kwonlyargs, a.kw_defaults) if d is not None}
+    return name in withdef
+
+
 def _is_doc(s):
     return isinstance(s, ast.Expr) and isinstance(s.value, ast.Constant) and isinstance(s.value.value, str)
 
@@ -347,6 +438,8 @@ class _Leave:
 
 class FuncLower:
     def __init__(self, program, fi, param_names=None):
+        global PROGRAM
+        PROGRAM = program
         self.program = program
         self.fi = fi
         self.scope = Scope(program, fi.module, fi.cls, fi)
@@ -945,6 +1038,9 @@ def norm_call(fn, args, kw):
         # X.as_tuple() is (X.lower, X.upper): contract of Bounds.as_tuple (an obligation of its own)
         if m == 'as_tuple' and not args and not kw:
             return ('tuple', (('attr', o, 'lower'), ('attr', o, 'upper')))
+    b = bind_glob(fn, args, kw)
+    if b is not None:
+        return mapt(norm, b)
     return call(fn, args, kw)
 
 
@@ -1147,7 +1243,7 @@ def show(t, names=None):
     if k == 'var': return t[1]
     if k == 'bv':
         try:
-            return names[-t[1]][t[2]]
+            return names[-(t[1] + 1)][t[2]]
         except Exception:
             return f'bv{t[1]}.{t[2]}'
     if k == 'glob': return t[1]
